@@ -349,6 +349,13 @@ def _execute(plan, env):
         res.evaluations = 1
         res.digest = tr.digest()
         res.sample = {"tree_rejected": str(e)[:200]}
+        if getattr(e, "stage", None) == "import":
+            # the generator ACCEPTED the specification, but the package it wrote cannot be imported: no deserializer
+            # exists for any of its types (a rejection by the generator itself is C18's business, not C03's)
+            import re
+            res.violation = {"kind": "deserializer-missing", "signature": "C03|deserializer-missing|import",
+                             "detail": "the generator accepted the specification but the generated package cannot be imported: "
+                                       + re.sub(r"/[^ '\"]*eolib-verif-[^ '\"]*", "<scratch>", str(e))[:300], "step": 0}
         return res
     # every declared struct / packet / case has its generated class (there is no deserializer to obey the spec otherwise)
     for name in sorted(te.spec.classes):
